@@ -594,6 +594,98 @@ fn check_front_section(r: &mut Rng, out: &mut ShardOut) -> Vec<Finding> {
     vec![]
 }
 
+/// Resources of a page edited through an incremental document: the page's Resources entry is re-pointed to a new
+/// object in the pending revision, then an XObject is registered. The update may only contain the page, the new
+/// resources object and what was added; the old resources object is untouched and must not be emitted again, and
+/// the entry must be in the resources the page now uses.
+fn check_incremental_resources(r: &mut Rng, out: &mut ShardOut) -> Vec<Finding> {
+    use lopdf::{dictionary, Dictionary};
+    let mut base = Document::with_version("1.5");
+    base.reference_table.cross_reference_type = if r.bool() { lopdf::xref::XrefType::CrossReferenceStream } else { lopdf::xref::XrefType::CrossReferenceTable };
+    let pages_id = base.new_object_id();
+    let old_res = base.add_object(dictionary! { "Font" => dictionary! {}, "Marker" => "old" });
+    let img = base.add_object(lopdf::Stream::new(dictionary! { "Type" => "XObject", "Subtype" => "Image", "Width" => 1, "Height" => 1 }, vec![0u8; 3]));
+    let page = base.add_object(dictionary! { "Type" => "Page", "Parent" => pages_id, "Resources" => old_res });
+    base.objects.insert(pages_id, Object::Dictionary(dictionary! { "Type" => "Pages", "Kids" => vec![Object::Reference(page)], "Count" => 1 }));
+    let cat = base.add_object(dictionary! { "Type" => "Catalog", "Pages" => pages_id });
+    base.trailer.set("Root", cat);
+    let mut bytes = vec![];
+    if base.save_to(&mut bytes).is_err() {
+        return vec![];
+    }
+    let mk = |sig: &str, what: String| Finding { signature: format!("C07/incremental-resources/{}", sig), what, witness: json!({"kind":"incremental-resources","note":"scenario is fixed; replay re-runs it"}) };
+    let Ok(mut inc) = IncrementalDocument::load_from(&bytes[..]) else { return vec![mk("load", "IncrementalDocument::load_from failed".into())] };
+    out.evaluations += 1;
+    out.count("incremental_resource_scenarios");
+    let variant = r.below(3);
+    let mut expect_new: BTreeSet<(u32, u16)> = BTreeSet::new();
+    let target_res;
+    match variant {
+        0 => {
+            // ordinary: the loaded page, Resources by reference
+            target_res = old_res;
+            expect_new.insert(page);
+            expect_new.insert(old_res);
+        }
+        1 => {
+            // the page is given a new resources object in the pending revision first
+            if inc.opt_clone_object_to_new_document(page).is_err() {
+                return vec![mk("clone", "opt_clone_object_to_new_document failed".into())];
+            }
+            let new_res = inc.new_document.add_object(dictionary! { "Marker" => "new" });
+            if let Ok(Object::Dictionary(p)) = inc.new_document.get_object_mut(page) {
+                p.set("Resources", Object::Reference(new_res));
+            }
+            target_res = new_res;
+            expect_new.insert(page);
+            expect_new.insert(new_res);
+        }
+        _ => {
+            // a page created in the pending revision with an indirect Resources entry
+            let new_res = inc.new_document.add_object(dictionary! { "Marker" => "new page" });
+            let new_page = inc.new_document.add_object(dictionary! { "Type" => "Page", "Parent" => pages_id, "Resources" => new_res });
+            target_res = new_res;
+            expect_new.insert(new_page);
+            expect_new.insert(new_res);
+            if let Err(e) = inc.add_xobject(new_page, "Im1", img) {
+                return vec![mk("add_xobject-error", format!("{:?}", e))];
+            }
+        }
+    }
+    if variant != 2 {
+        if let Err(e) = inc.add_xobject(page, "Im1", img) {
+            return vec![mk("add_xobject-error", format!("{:?}", e))];
+        }
+    }
+    let mut outb = vec![];
+    if let Err(e) = inc.save_to(&mut outb) {
+        return vec![mk("save", format!("{}", e))];
+    }
+    if !outb.starts_with(&bytes) {
+        return vec![mk("prefix", "saved file does not start with the loaded bytes".into())];
+    }
+    let Ok(loaded) = Document::load_mem(&outb) else { return vec![mk("reload", "result does not load".into())] };
+    let has_entry = |d: &Dictionary| d.get(b"XObject").and_then(Object::as_dict).map(|x| x.has(b"Im1")).unwrap_or(false);
+    let in_target = loaded.get_dictionary(target_res).map(has_entry).unwrap_or(false);
+    if !in_target {
+        return vec![mk("entry-missing", format!("variant {}: the resources object the page uses ({:?}) has no /XObject /Im1 after add_xobject", variant, target_res))];
+    }
+    if variant != 0 {
+        // the old resources object is untouched: same content as before, and not part of the update
+        let same = loaded.get_dictionary(old_res).map(|d| !has_entry(d)).unwrap_or(false);
+        if !same {
+            return vec![mk("untouched-object-changed", format!("variant {}: resources object {:?}, which the page no longer uses, was changed", variant, old_res))];
+        }
+        let tail = &outb[bytes.len()..];
+        let header = format!("{} {} obj", old_res.0, old_res.1);
+        if tail.windows(header.len()).any(|w| w == header.as_bytes()) {
+            return vec![mk("untouched-object-emitted", format!("variant {}: the update emits {:?} again although it was neither new nor replaced", variant, old_res))];
+        }
+    }
+    let _ = expect_new;
+    vec![]
+}
+
 pub fn run(cfg: &RunCfg) -> (PropMeta, ShardOut, Map<String, Value>) {
     let n = cfg.n(12_000, 400_000);
     let per = (n as usize + cfg.threads - 1) / cfg.threads;
@@ -623,6 +715,10 @@ pub fn run(cfg: &RunCfg) -> (PropMeta, ShardOut, Map<String, Value>) {
                 if i == 0 {
                     out.sample(json!({"history_revisions":h.revisions.len(),"style":format!("{:?}",style),"objects_per_revision":h.revisions.iter().map(|r| r.objects.len()).collect::<Vec<_>>()}));
                 }
+            } else if i % 40 == 11 {
+                for f in check_incremental_resources(&mut r, &mut out) {
+                    out.finding(f);
+                }
             } else {
                 let fs = check_incremental(&mut r, &mut out);
                 for f in fs {
@@ -634,7 +730,7 @@ pub fn run(cfg: &RunCfg) -> (PropMeta, ShardOut, Map<String, Value>) {
     });
     let meta = PropMeta {
         level: "exploration",
-        rule: "(a) random histories base + 1..4 update revisions (each replacing a random subset and adding objects, trailer changes; one history in forty has 34..70 small updates that leave most objects to the oldest sections; one in sixteen is written with update sections that repeat the stale Size of the revision they update) written by the reference writer (xref tables or xref streams, updated objects plain or inside object streams): Document::load_mem of every prefix must equal the latest-wins model; (b) random edit scripts (set_object, opt_clone_object_to_new_document + mutation, add_object) through IncrementalDocument on lopdf-written and reference-written bases, 1..3 steps, after each step: previous bytes are a prefix, get_prev_documents() unchanged, the strict reader finds only the touched objects and exactly one new section with Prev = previous startxref, the result loads to the model; (c) one case in ten is a file in the layout of linearized documents: the newest section stands in front of the (older) main section its Prev names, 0..2 ordinary updates appended - it must load to the latest-wins merge along the Prev chain and survive an incremental update. distinct = distinct histories / final files.".into(),
+        rule: "(a) random histories base + 1..4 update revisions (each replacing a random subset and adding objects, trailer changes; one history in forty has 34..70 small updates that leave most objects to the oldest sections; one in sixteen is written with update sections that repeat the stale Size of the revision they update) written by the reference writer (xref tables or xref streams, updated objects plain or inside object streams): Document::load_mem of every prefix must equal the latest-wins model; (b) random edit scripts (set_object, opt_clone_object_to_new_document + mutation, add_object) through IncrementalDocument on lopdf-written and reference-written bases, 1..3 steps, after each step: previous bytes are a prefix, get_prev_documents() unchanged, the strict reader finds only the touched objects and exactly one new section with Prev = previous startxref, the result loads to the model; (c) one case in ten is a file in the layout of linearized documents: the newest section stands in front of the (older) main section its Prev names, 0..2 ordinary updates appended - it must load to the latest-wins merge along the Prev chain and survive an incremental update; (d) one case in forty registers an XObject through IncrementalDocument on a loaded page, on a page whose Resources were re-pointed in the pending revision, or on a page created in it: the entry must land in the resources the page uses and the untouched old resources object must not be emitted again. distinct = distinct histories / final files.".into(),
         assumptions: vec![
             "one cross-reference style per file; hybrid files and objects freed in a later revision are outside the domain".into(),
             "raw CR/CRLF inside literal strings (C02's known finding) is switched off in the reference writer for this property".into(),
@@ -661,6 +757,17 @@ pub fn replay(w: &Value) -> Vec<Finding> {
             } else {
                 vec![Finding { signature: w.get("signature").and_then(|s| s.as_str()).unwrap_or("C07/unknown").to_string(), what: diffs[0].1.clone(), witness: w.clone() }]
             }
+        }
+        Some("incremental-resources") => {
+            // the scenario has three fixed variants chosen by the PRNG: run it often enough to meet all of them
+            let mut o = ShardOut::default();
+            let mut fs = vec![];
+            for seed in 0..24u64 {
+                let mut r = Rng::new(seed);
+                fs.extend(check_incremental_resources(&mut r, &mut o));
+            }
+            fs.truncate(1);
+            fs
         }
         _ => vec![],
     }
